@@ -125,6 +125,14 @@ func c16failLines(r *rand.Rand, f *c16file, kind, ind string) int {
 		// the failing expression starts with a literal-valued constant (replaced by the optimizer)
 		f.add(ind + "const kc = 7")
 		f.add(ind + "em := {}")
+		if r.Intn(2) == 0 {
+			// the constant is referenced before (other lines, other positions in an expression) and after the failing use
+			f.add(ind + "first := kc + 1")
+			f.add(ind + "second := [kc, 2 * kc]")
+			ln := f.add(ind + "q := kc - em")
+			f.add(ind + "third := kc")
+			return ln
+		}
 		return f.add(ind + "q := kc - em")
 	case "folded-lhs":
 		// the failing operator's left operand is a constant sub-expression folded by the optimizer
